@@ -198,7 +198,7 @@ func c09Observe(dir string, w *c09World, order []string) (map[string]string, err
 }
 
 func runC09(res *lib.Result, tier string, seed int64, args []string) error {
-	nW, reps := 12, 5
+	nW, reps := 30, 5
 	if tier == "thorough" {
 		nW, reps = 400, 8
 	}
